@@ -114,4 +114,17 @@ Applicable(es, p) == ApplicableFrom(es, 1, p)
 RECURSIVE FlattenFrom(_, _)
 FlattenFrom(es, k) == IF k > Len(es) THEN <<>> ELSE es[k].toks \o FlattenFrom(es, k + 1)
 Flatten(es) == FlattenFrom(es, 1)
+
+(* --------------------------- profile inheritance: the stack of a node --------------------------- *)
+\* nodes: a sequence of records with a field `parents` (indices of earlier nodes, in the order of
+\* the node's `parent` file).  A node's stack is the stacks of its parents, in that order, followed
+\* by the node itself: a node inherited along several paths occurs (and is applied) once per path.
+RECURSIVE StackFrom(_, _)
+StackFrom(nodes, k) ==
+    LET ps == nodes[k].parents
+        f[j \in 0..Len(ps)] == IF j = 0 THEN <<>> ELSE f[j - 1] \o StackFrom(nodes, ps[j])
+    IN f[Len(ps)] \o <<k>>
+\* the profile a domain is configured with is the last node
+StackSeq(nodes) == IF Len(nodes) = 0 THEN <<>> ELSE StackFrom(nodes, Len(nodes))
+WellStacked(nodes) == \A k \in DOMAIN nodes : \A j \in DOMAIN nodes[k].parents : nodes[k].parents[j] \in 1..(k - 1)
 =========================================================================
